@@ -216,6 +216,9 @@ def build(kind):
         a3, r3 = hw.wire('a3', 3), hw.wire('r3', 3)
         py4hw.ZeroExtend(hw, 'zx', a, a3)
         c.child2 = Inner(hw, 'inner_wide', a3, a3, r3)
+        # concatenations with more than one input (inlined; their input lists belong to the circuit, not to the generator)
+        py4hw.ConcatenateMSBF(hw, 'cat_m', [a, b, n], hw.wire('cm', 6))
+        py4hw.ConcatenateLSBF(hw, 'cat_l', [r0, a], hw.wire('cl', 4))
         c.free = [a, b]
         # the edit gives the so far purely combinational top its first clocked element
         c.edit = lambda: py4hw.Reg(hw, 'extra', r2, hw.wire('extra', 2))
@@ -239,6 +242,9 @@ def build(kind):
         c.child = ClockSyncFSM(hw, 'fsm', start, stop, sync, active)
         py4hw.Reg(hw, 'r', active, q, enable=sync, reset_value=1)
         c.prim = py4hw.Or2(hw, 'or_top', q, sync, n)
+        # a library block that writes its own module body (message length not a power of two)
+        from py4hw.logic.protocol.uart.sequencer import MsgSequencer
+        MsgSequencer(hw, 'msgseq', n, hw.wire('mvalid'), hw.wire('mv', 8), 'hello')
         c.free = [start, stop]
         c.edit = lambda: py4hw.Not(hw, 'extra', n, hw.wire('extra'))
     elif kind == 'multiclk':
